@@ -13,7 +13,10 @@ from .facts import CheckerError
 from .mir import show
 from .dt import leaves
 
-NAMES = ("left_linear", "right_linear", "right_linear_c", "even_split")
+NAMES = ("left_linear", "right_linear", "right_linear_c", "even_split", "balanced")
+# `DTree::balanced` composes a slice of dtrees the same way: the halves handed to the two recursive calls must tile the
+# slice, or a clause is no leaf of the dtree (or is one twice)
+MODULE = {"balanced": "repr::dtree"}
 
 
 class Und(Exception):
@@ -83,8 +86,7 @@ def pieces(alt, n, name):
     """intervals [lo, hi) of `order` used by one return alternative: slices given to recursive calls, elements made leaves"""
     out = []
     for x in mir.subterms(alt):
-        if x[0] == "call" and x[1].name in (name, "right_linear", "left_linear", "even_split", "right_linear_c") and x[2] and \
-                "repr::vtree" in (x[1].key() or "") + "repr::vtree":
+        if x[0] == "call" and x[1].name in (name, "right_linear", "left_linear", "even_split", "right_linear_c") and x[2]:
             lo, hi = slice_iv(x[2][0], n)
             out.append((lo, hi, "%s(%s)" % (x[1].name, show(strip(x[2][0])))))
         leafarg = None
@@ -108,7 +110,7 @@ def pieces(alt, n, name):
 def run(prog):
     out = []
     for name in NAMES:
-        fns = [g for g in prog.lib_fns if g.name == name and "repr::vtree" in g.npath]
+        fns = [g for g in prog.lib_fns if g.name == name and MODULE.get(name, "repr::vtree") in g.npath and "{closure" not in g.npath]
         if len(fns) != 1:
             raise CheckerError("VT: constructor %s not found" % name)
         fn = fns[0]
